@@ -1093,11 +1093,28 @@ def call_modattr(ip, name, args, kwargs, frame):
         return Obj('cmpkey', fn=args[0])
     if name == 'json.loads':
         used('json.loads: returns an arbitrary JSON value or raises ValueError (JSONDecodeError)')
-        if kind_of(ip, norm(ip, args[0])) != 'str':
+        a0 = norm(ip, args[0])
+        if kind_of(ip, a0) != 'str' and not (isinstance(a0, S) and ctx.must(is_str(a0.t))):
+            if isinstance(a0, S) and ctx.feasible(is_str(a0.t)):
+                raise OutOfReach('json.loads on a value of undetermined type')
             raise_('TypeError', 'the JSON object must be str')
         if ctx.choice('json_ok'):
+            # the decoded value is built from new containers: the heap below the old allocation bound is unchanged and
+            # a container result lies above it
+            h0 = ctx.heap
+            fresh = ctx.fresh_heap('json')
+            rr = z3.Int('r!js')
+            keep = rr < h0.alloc
+
+            def _m(o, n):
+                return z3.Lambda([rr], z3.If(keep, z3.Select(o, rr), z3.Select(n, rr)))
+            ctx.assume(fresh.alloc >= h0.alloc)
+            ctx.heap = Heap(_m(h0.LEN, fresh.LEN), _m(h0.ELS, fresh.ELS), _m(h0.HAS, fresh.HAS), _m(h0.VAL, fresh.VAL),
+                            _m(h0.NK, fresh.NK), _m(h0.KEY, fresh.KEY), fresh.alloc)
             v = ctx.fresh_v('json')
             ctx.assume(wf_value(ctx.heap, v))
+            ctx.assume(z3.Implies(is_list(v), V.lref(v) >= h0.alloc))
+            ctx.assume(z3.Implies(is_dict(v), V.dref(v) >= h0.alloc))
             ctx.assume(z3.Not(z3.Or(is_date(v), is_func(v), is_regex(v), is_other(v))))
             return S(v)
         raise_('JSONDecodeError', 'invalid JSON')
@@ -1166,6 +1183,9 @@ def fstring(ip, frame, node):
                 site = f'{frame.qual}:{node.lineno}:{node.col_offset}'
                 vt = ctx.to_term(val) if not isinstance(val, Obj) else VOther(z3.IntVal(-1))
                 piece = ufun('FMT_' + site + ':' + str(spec), V, Str)(vt)
+                if spec in (None, '') and not isinstance(val, Obj):
+                    # an empty format spec renders a str as itself
+                    piece = z3.If(is_str(vt), V.s(vt), piece)
         out = piece if out is None else z3.Concat(out, piece)
     return T(z3.simplify(out) if out is not None else z3.StringVal(''))
 
